@@ -1050,10 +1050,27 @@ def r18_3(cx):
     cx.report('R18.3', b, 'none-after-flush', ok2, 'None is returned only after the remaining unreported bytes were flushed' if ok2 else 'None reachable while unreported bytes remain')
     # StreamFindIter::next: None only on None of the chunk iterator; Err passed through; loop otherwise
     s = cx.body("<automaton::StreamFindIter<'a, A, R> as core::iter::Iterator>::next")
-    nones = [bi for bi, si, pl, st in s.stores() if si != 'term' and pl['l'] == 0 and not pl['pr'] and is_agg(s.rvalue_term(st['r'], 0, bi), r'Option$', 'None')]
-    g = discr_gates(s, lambda x: is_call(x, r'StreamChunkIter::next$'))
-    cut = [e for gg in g for e in arm_edges(s, gg, 0)]
-    ok = bool(g) and bool(nones) and not reachable_without(s, nones, cut)
+    # on the path summaries (`?` on the Option, an explicit match and a combinator are the same): a path returns None exactly when
+    # the chunk iterator returned None
+    from acverif.sym import summarize as _sum, canon as _cn, cstr as _cs
+    ok = True
+    n_none = 0
+    for r in _sum(cx.facts, s):
+        if r.end != 'return':
+            continue
+        inner = None
+        for c, v in r.conds:
+            cc = _cn(c)
+            if cc[0] == 'discr' and is_call(cc[1], r'StreamChunkIter::next$'):
+                inner = 'none' if (v == 0 or (isinstance(v, tuple) and v[0] == 'not' and 1 in v[1])) else 'some'
+        is_none = r.ret is not None and is_agg(_cn(r.ret), r'Option$', 'None')
+        if is_none:
+            n_none += 1
+            if inner != 'none':
+                ok = False
+        elif inner != 'some':
+            ok = False
+    ok = ok and n_none >= 1
     cx.report('R18.3', s, 'find-iter-none', ok, 'StreamFindIter ends only when the chunk iterator ends' if ok else 'StreamFindIter can end early')
     mats = [s.rvalue_term(st['r'], 0, bi) for bi, si, pl, st in s.stores() if si != 'term' and pl['l'] == 0 and not pl['pr']]
     okm = any(is_agg(t, r'Option$', 'Some') and is_agg(t[3]['0'], r'Result$', 'Ok') and 'as Match' in tstr(expand_vars(s, t[3]['0'][3]['0'])) for t in mats)
